@@ -190,13 +190,23 @@ class Transaction:
         return None
 
     @staticmethod
-    def _schema_signature(schema: Schema) -> Set[Any]:
-        """Comparable signature of a schema's fields (name, type, required)."""
-        sig = set()
+    def _schema_signature(schema: Schema) -> List[Any]:
+        """Comparable signature of a schema's fields: (id, name, type, required),
+        IN ORDER.
+
+        Order and field ids are part of the signature. The parquet file is
+        written in the provided schema's column order, and pa.concat_tables
+        requires identical column order, so a reordered schema bricks every
+        later full scan. Column bounds are filed under the provided schema's
+        field ids but looked up through the table schema's ids at scan time,
+        so re-numbered ids make pruning consult another column's bounds and
+        drop matching rows.
+        """
+        sig = []
         for f in schema.fields:
             f_type = f.get("type")
             type_key = json.dumps(f_type, sort_keys=True) if isinstance(f_type, (dict, list)) else f_type
-            sig.add((f.get("name"), type_key, bool(f.get("required", False))))
+            sig.append((f.get("id"), f.get("name"), type_key, bool(f.get("required", False))))
         return sig
 
     def _validate_schema_against_table(self, schema: Schema) -> None:
